@@ -25,6 +25,7 @@ import (
 
 	"verif/harness/cmapref"
 	"verif/harness/ev"
+	"verif/harness/hostile"
 	"verif/harness/pscanon"
 	"verif/harness/t1ref"
 	"verif/harness/targets"
@@ -440,6 +441,75 @@ func instanceSummary(intp *postscript.Interpreter) string {
 
 type historyCase struct {
 	Programs []string `json:"programs"`
+	// Inputs are damaged files handed to the readers after the programs: a
+	// read that fails half-way must leave nothing behind either
+	Inputs []hostileInput `json:"inputs,omitempty"`
+}
+
+type hostileInput struct {
+	Target string `json:"target"` // type1, cmap, afm, pfb
+	Data   []byte `json:"data"`
+}
+
+// contextFont has the glyphs the damaged fonts of the hostile generators
+// refer to (components A, acute, grave, a, zero) and plain outlines under the
+// names those generators give to their composites, so that a record left
+// behind by a failed read has something to act on.
+func contextFont() []byte {
+	i := t1ref.I
+	sq := func(name string, w int32) *t1ref.Glyph {
+		return &t1ref.Glyph{Name: name, WX: i(w), SBX: i(10), Segs: []t1ref.Seg{
+			{Kind: t1ref.SegMove, D: []t1ref.Num{i(10), i(10)}}, {Kind: t1ref.SegLine, D: []t1ref.Num{i(w / 2), i(0)}},
+			{Kind: t1ref.SegLine, D: []t1ref.Num{i(0), i(50)}}, {Kind: t1ref.SegClose}}}
+	}
+	m := &t1ref.Font{FontName: "Context", LenIV: -1, EncKind: t1ref.EncStandard}
+	for k, n := range []string{".notdef", "A", "acute", "grave", "a", "zero", "B", "b", "c", "AAcomposite", "Aacute", "Agrave", "aacute", "agrave", "zzcomposite", "space"} {
+		m.Glyphs = append(m.Glyphs, sq(n, int32(300+20*k)))
+	}
+	return t1ref.Write(m, t1ref.DefaultLayout(t1ref.ContPFA))
+}
+
+var (
+	contextFile  = contextFont()
+	contextFile2 = t1ref.Write(modelFont(), t1ref.DefaultLayout(t1ref.ContBinary))
+	metricsFile  = func() []byte { var buf bytes.Buffer; metricsVal.Write(&buf); return buf.Bytes() }()
+)
+
+// readerProbe reads well-formed inputs of every kind; it runs straight after
+// each damaged input.
+func readerProbe() string {
+	var sb strings.Builder
+	for _, d := range [][]byte{contextFile, contextFile2, fontFile} {
+		r, err := targets.Type1.Run(bytes.NewReader(d))
+		fmt.Fprintf(&sb, "%v|%v;", r, err)
+	}
+	r, err := targets.CMap.Run(bytes.NewReader(cmapFile))
+	fmt.Fprintf(&sb, "%v|%v;", r, err)
+	r, err = targets.AFM.Run(bytes.NewReader(metricsFile))
+	fmt.Fprintf(&sb, "%v|%v;", r, err)
+	r, err = targets.PFB.Run(bytes.NewReader(fontFile))
+	fmt.Fprintf(&sb, "%v|%v;", r, err)
+	return sb.String()
+}
+
+func runHostileInput(in hostileInput) (failed bool) {
+	defer func() {
+		if recover() != nil {
+			failed = true
+		}
+	}()
+	var err error
+	switch in.Target {
+	case "type1":
+		_, err = targets.Type1.Run(bytes.NewReader(in.Data))
+	case "cmap":
+		_, err = targets.CMap.Run(bytes.NewReader(in.Data))
+	case "afm":
+		_, err = targets.AFM.Run(bytes.NewReader(in.Data))
+	default:
+		_, err = targets.PFB.Run(bytes.NewReader(in.Data))
+	}
+	return err != nil
 }
 
 var (
@@ -511,6 +581,17 @@ func checkHistory(c *historyCase) (msg string, effective int) {
 			effective++
 		}
 	}
+	if len(c.Inputs) > 0 {
+		probeBefore := readerProbe()
+		for k, in := range c.Inputs {
+			if runHostileInput(in) {
+				effective++
+			}
+			if got := readerProbe(); got != probeBefore {
+				return fmt.Sprintf("after reading a damaged %s file (input %d of the history, %d bytes) the readers give different results for well-formed inputs\nbefore: %s\nafter:  %s", in.Target, k, len(in.Data), clipStr(probeBefore), clipStr(firstDiff(probeBefore, got))), effective
+			}
+		}
+	}
 	if fresh := instanceSummary(postscript.NewInterpreter()); fresh != pristine {
 		return fmt.Sprintf("a fresh interpreter differs from a pristine one after the hostile programs ran elsewhere\nprograms: %q", c.Programs), effective
 	}
@@ -532,6 +613,19 @@ func checkHistory(c *historyCase) (msg string, effective int) {
 
 var firstRun []string
 
+func firstDiff(a, b string) string {
+	i := 0
+	for i < len(a) && i < len(b) && a[i] == b[i] {
+		i++
+	}
+	if i > 40 {
+		i -= 40
+	} else {
+		i = 0
+	}
+	return "..." + b[i:]
+}
+
 func runWorkloadNames() (string, string) {
 	cur := runWorkload()
 	if firstRun == nil {
@@ -549,7 +643,7 @@ func TestP1Isolation(t *testing.T) {
 	rec := ev.New("C18", "isolation")
 	defer rec.Finish(t)
 	firstRun = runWorkload()
-	rec.Rule(fmt.Sprintf("histories: a probe workload (%d items: 16 programs touching every operator and the error paths, ReadCMap, type1.Read of a PFB font with seac, Font.Write in 4 formats + re-read, WritePDF, Metrics.Write + re-read, all query methods, 130 name look-ups) is run; then 1-5 hostile programs drawn from %d pieces and their concatenations (overwriting or re-defining entries of systemdict, userdict, errordict, every StandardEncoding slot, the CIDInit procedure set, FontDirectory and the resource categories, replacing operators used by the font and CMap readers, or failing half-way inside begin, inside a CMap block, inside an eexec section (malformed, or well-formed with a program that errors or stops), inside nested procedures) each run in an instance of its own; after each of them the very next instance runs a small program that must give its known result; then a fresh instance is compared slot by slot with a pristine one and the workload is run again. Oracle: results before == results after == golden digest computed in a fresh process that never ran a hostile program. Non-trivial: >= 1 hostile program changed a shared-looking object in its own instance; distinct by history.", len(workload), len(hostilePieces)))
+	rec.Rule(fmt.Sprintf("histories: a probe workload (%d items: 16 programs touching every operator and the error paths, ReadCMap, type1.Read of a PFB font with seac, Font.Write in 4 formats + re-read, WritePDF, Metrics.Write + re-read, all query methods, 130 name look-ups) is run; then 1-5 hostile programs drawn from %d pieces and their concatenations (overwriting or re-defining entries of systemdict, userdict, errordict, every StandardEncoding slot, the CIDInit procedure set, FontDirectory and the resource categories, replacing operators used by the font and CMap readers, or failing half-way inside begin, inside a CMap block, inside an eexec section (malformed, or well-formed with a program that errors or stops), inside nested procedures) each run in an instance of its own; in half of the histories followed by 1-4 damaged files from the C01 generators (Type 1 fonts with random or cut charstrings and damaged composites, CMap, AFM and PFB files) handed to the readers, each followed at once by reads of well-formed fonts (incl. one holding the glyph names the damaged fonts refer to), a CMap, an AFM file and a PFB stream whose results must not change; after each of them the very next instance runs a small program that must give its known result; then a fresh instance is compared slot by slot with a pristine one and the workload is run again. Oracle: results before == results after == golden digest computed in a fresh process that never ran a hostile program. Non-trivial: >= 1 hostile program changed a shared-looking object in its own instance or >= 1 damaged input was rejected; distinct by history.", len(workload), len(hostilePieces)))
 	ev.SetupRapid(1200, 64000)
 	rapid.Check(t, func(t *rapid.T) {
 		n := rapid.IntRange(1, 5).Draw(t, "nprograms")
@@ -562,6 +656,22 @@ func TestP1Isolation(t *testing.T) {
 			}
 			c.Programs = append(c.Programs, strings.Join(parts, "\n"))
 		}
+		if rapid.Bool().Draw(t, "withinputs") {
+			for i := rapid.IntRange(1, 4).Draw(t, "ninputs"); i > 0; i-- {
+				switch rapid.IntRange(0, 6).Draw(t, "inputkind") {
+				case 0:
+					c.Inputs = append(c.Inputs, hostileInput{"cmap", hostile.CMap(t)})
+				case 1:
+					c.Inputs = append(c.Inputs, hostileInput{"afm", hostile.AFM(t)})
+				case 2:
+					c.Inputs = append(c.Inputs, hostileInput{"pfb", hostile.PFB(t)})
+				default:
+					f, _ := hostile.Font(t)
+					c.Inputs = append(c.Inputs, hostileInput{"type1", t1ref.WriteRaw(f)})
+				}
+			}
+			rec.Class("with damaged reader inputs")
+		}
 		var eff int
 		msg := ev.Safe(func() string {
 			var m string
@@ -570,7 +680,11 @@ func TestP1Isolation(t *testing.T) {
 		})
 		rec.Eval(1)
 		if eff > 0 {
-			rec.NonTrivial(strings.Join(c.Programs, "\x00"))
+			key := strings.Join(c.Programs, "\x00")
+			for _, in := range c.Inputs {
+				key += "\x00" + string(in.Data)
+			}
+			rec.NonTrivial(key)
 		} else {
 			rec.Class("no visible effect")
 		}
